@@ -539,13 +539,14 @@ Proof.
 Qed.
 
 Lemma v_step_env : forall st a, inv10 st ->
-  match a with AConvSet | AConvRemove | AConvAdd | AEnvUnc _ | AEnvConvWork _ => True | _ => False end ->
+  match a with AConvSet | AConvRemove | AConvAdd | AEnvUnc _ | AEnvConvWork _ | ABoot => True | _ => False end ->
   inv10 (stepm st a).
 Proof.
   intros st a I H. destruct a; try contradiction; simpl; try exact I.
   - apply inv10_start_converter. exact I.
   - apply (inv10_same st); auto.
   - apply (inv10_same st); auto.
+  - apply inv10_start_merge'. apply inv10_start_converter. apply inv10_start_tagging. exact I.
 Qed.
 
 Lemma v_step_start_conv : forall st, inv10 st -> inv10 (stepm st (AStart KConvert)).
@@ -763,7 +764,7 @@ Qed.
 
 Theorem step_inv10 : forall st a, inv13 junk st -> inv10 st -> inv10 (stepm st a).
 Proof.
-  intros st a I3 I. destruct a as [ks|v|v|v| |h|h| | | |n|b|k|k].
+  intros st a I3 I. destruct a as [ks|v|v|v| |h|h| | | |n|b| |k|k].
   - apply v_step_import; auto.
   - apply v_step_view; auto.
   - apply v_step_read; auto.
@@ -771,6 +772,7 @@ Proof.
   - apply v_step_tagadd; auto.
   - apply v_step_tagdel; auto.
   - apply v_step_tagupd; auto.
+  - apply v_step_env; simpl; auto.
   - apply v_step_env; simpl; auto.
   - apply v_step_env; simpl; auto.
   - apply v_step_env; simpl; auto.
@@ -818,7 +820,7 @@ Proof. intros n fs H f Hf. apply H. eapply in_skipn. eauto. Qed.
 
 Lemma step_files_ok : forall st a, inv10 st -> files_ok (indexes st) -> files_ok (indexes (stepm st a)).
 Proof.
-  intros st a I U. destruct a as [ks|v|v|v| |h|h| | | |n|b|k|k]; simpl; auto.
+  intros st a I U. destruct a as [ks|v|v|v| |h|h| | | |n|b| |k|k]; simpl; auto.
   - destruct ks; auto. destruct (ascending _ _); auto. destruct (_ =? _)%nat; auto.
   - destruct (view_of v (views st)); auto.
   - destruct (view_of v (views st)) as [[|]|]; auto. destruct rf; auto.
@@ -826,6 +828,7 @@ Proof.
   - rewrite indexes_start_tagging. exact U.
   - rewrite indexes_start_converter, indexes_start_tagging. exact U.
   - rewrite indexes_start_converter. exact U.
+  - rewrite indexes_start_merge, indexes_start_converter, indexes_start_tagging. exact U.
   - destruct k.
     + destruct (ijob st) as [[caps nx snap [|] cr un np]|]; auto.
       destruct (from_pcap capdb bad (known st) caps snap) as [[es usednew] allk]. auto.
@@ -909,7 +912,7 @@ Qed.
 Lemma view_step_stable : forall st a v s, rf = false -> view_of v (views st) = Some s -> a <> ARelease v ->
   view_of v (views (stepm st a)) = Some s.
 Proof.
-  intros st a v s Hrf H Ha. destruct a as [ks|w|w|w| |h|h| | | |n|b|k|k]; simpl; auto.
+  intros st a v s Hrf H Ha. destruct a as [ks|w|w|w| |h|h| | | |n|b| |k|k]; simpl; auto.
   - destruct ks; auto. destruct (ascending _ _); auto. destruct (_ =? _)%nat; auto.
   - destruct (view_of w (views st)) eqn:E; auto. simpl. rewrite view_of_app, H. reflexivity.
   - destruct (view_of w (views st)) as [[|]|]; auto. rewrite Hrf. auto.
@@ -917,6 +920,7 @@ Proof.
   - rewrite views_start_tagging. exact H.
   - rewrite views_start_converter, views_start_tagging. exact H.
   - rewrite views_start_converter. exact H.
+  - rewrite views_start_merge, views_start_converter, views_start_tagging. exact H.
   - destruct k.
     + destruct (ijob st) as [[caps nx snap [|] cr un np]|]; auto.
       destruct (from_pcap capdb bad (known st) caps snap) as [[es usednew] allk]. auto.
